@@ -17,8 +17,8 @@ Definition docs_wf (l : list (id * body)) : Prop :=
 
 (* the fraction's time range / occupancy map does not exclude a stored document for any request range
    [lo, hi] with hi <= B that contains its timestamp (pruning soundness: property C14).
-   Proved below (ProofsMain.info_sound_nodist) for every B when the fraction has no occupancy map. With a map,
-   the code as it is satisfies it only for B < 2^63 (see info_unsound_above_int64 in Props.v). *)
+   Proved (ProofsMain.info_sound_nodist) for every B when the fraction has no occupancy map. Before the repair
+   6d376ea a fraction with a map satisfied it only for B < 2^63 (see C04_pruning_v0_refuted in Props.v). *)
 Definition info_sound (B : N) (f : frac) : Prop :=
   forall x b lo hi, lookup f x = Some b -> lo <= fst x -> fst x <= hi -> hi <= B -> intersecting f lo hi = true.
 
